@@ -53,10 +53,51 @@ pub fn partition(rng: &mut Rng, order: &[usize], k: usize, enc: Enc) -> Vec<File
     files
 }
 
+/// Spreads the files of a layout over two sub-directories (and the top level); two files in
+/// different directories may share their base name.
+pub fn spread_over_directories(rng: &mut Rng, files: &mut [FileSpec]) {
+    let mut used: Vec<String> = vec![];
+    for f in files.iter_mut() {
+        let dir = *rng.pick(&["d1/", "d2/", "d1/", "d2/", ""]);
+        let base = if rng.chance(1, 2) { "decls.st".to_string() } else { f.name.clone() };
+        let mut name = format!("{dir}{base}");
+        if used.contains(&name) {
+            name = format!("{dir}{}", f.name);
+        }
+        if used.contains(&name) {
+            continue;
+        }
+        used.push(name.clone());
+        f.name = name;
+    }
+}
+
 /// Chooses how the files are presented: list, directory or mixture; every file is covered.
 pub fn present(rng: &mut Rng, files: &[FileSpec]) -> Vec<String> {
     let mut list: Vec<String> = files.iter().map(|f| format!("ws/{}", f.name)).collect();
     rng.shuffle(&mut list);
+    if files.iter().any(|f| f.name.contains('/')) {
+        // several directories: name each directory (or its files one by one) and the top-level files
+        let mut args: Vec<String> = vec![];
+        for d in ["d1", "d2"] {
+            let inside: Vec<String> = list.iter().filter(|a| a.starts_with(&format!("ws/{d}/"))).cloned().collect();
+            if inside.is_empty() {
+                continue;
+            }
+            match rng.below(4) {
+                0 => args.extend(inside),
+                1 => {
+                    // the directory and, again, one of its files
+                    args.push(format!("ws/{d}"));
+                    args.push(inside[rng.below(inside.len())].clone());
+                }
+                _ => args.push(format!("ws/{d}")),
+            }
+        }
+        args.extend(list.iter().filter(|a| !a.starts_with("ws/d1/") && !a.starts_with("ws/d2/")).cloned());
+        rng.shuffle(&mut args);
+        return args;
+    }
     match rng.below(5) {
         0 | 1 => list,
         2 | 3 => vec!["ws".to_string()],
@@ -87,7 +128,10 @@ fn canonical_variant(world: &World, role: &str) -> Variant {
 fn random_variant(rng: &mut Rng, world: &World, role: &str, max_files: usize) -> Variant {
     let order = rng.perm(world.decls.len());
     let k = rng.range(1, max_files.min(world.decls.len().max(1)));
-    let files = partition(rng, &order, k, Enc::Utf8);
+    let mut files = partition(rng, &order, k, Enc::Utf8);
+    if rng.chance(1, 5) {
+        spread_over_directories(rng, &mut files);
+    }
     let args = present(rng, &files);
     let entry = if rng.chance(1, 5) { Entry::ApiText } else { Entry::Check };
     Variant { role: role.to_string(), entry, files, extras: vec![], args, dir_seed: rng.next(), hash_seed: rng.next(), faults: vec![] }
@@ -566,8 +610,10 @@ fn decorate(rng: &mut Rng, world: &mut World, repertoire_1252: bool) {
             5 => {
                 // a large comment: decoders and position arithmetic must not depend on file size
                 if rng.chance(1, 8) {
-                    let kb = rng.range(8, 70);
-                    let line = format!("(* {extra} {} *)\n", "padding ".repeat(12));
+                    let kb = rng.range(1, 70);
+                    // the padding itself is ASCII half of the time, so that the first non-ASCII
+                    // byte of the file lies beyond any sniffing window
+                    let line = if rng.chance(1, 2) { format!("(* {} *)\n", "padding ".repeat(12)) } else { format!("(* {extra} {} *)\n", "padding ".repeat(12)) };
                     d.text = format!("{}{}", line.repeat(kb * 1024 / line.len()), d.text);
                 }
             }
@@ -783,7 +829,7 @@ fn oracle_c14(t: &WorldTrace, obs: &[Obs], stats: &mut Stats) -> Vec<Violation> 
         let positions = |v: &Variant, o: &Obs| -> Option<Vec<(String, String, Option<(usize, usize)>)>> {
             let mut p = vec![];
             for d in &o.diags {
-                let name = d.primary.file.rsplit('/').next().unwrap_or("").to_string();
+                let name = crate::world::ws_relative(&d.primary.file).to_string();
                 let pos = match v.files.iter().find(|f| f.name == name) {
                     Some(f) => {
                         let text = file_text(&t.world, f);
@@ -931,6 +977,9 @@ pub fn gen_c03(rng: &mut Rng, thorough: bool) -> WorldTrace {
             let order = rng.perm(world.decls.len());
             let k = rng.range(1, 3.min(world.decls.len()));
             files = partition(rng, &order, k, Enc::Utf8);
+        }
+        if rng.chance(1, 4) {
+            spread_over_directories(rng, &mut files);
         }
         let args = present(rng, &files);
         variants.push(mk("company", entry, files, args, rng));
@@ -1139,8 +1188,18 @@ pub fn covers_all_files(v: &Variant) -> bool {
     if v.role == "free" {
         return true;
     }
-    let dir = v.args.iter().any(|a| a == "ws");
-    dir || v.files.iter().all(|f| v.args.contains(&format!("ws/{}", f.name)))
+    let sub = v.files.iter().any(|f| f.name.contains('/'));
+    if sub && v.args.iter().any(|a| a == "ws") {
+        // a directory that holds sub-directories is a different scenario (fault kind of C13)
+        return false;
+    }
+    v.files.iter().all(|f| {
+        v.args.contains(&format!("ws/{}", f.name))
+            || match f.name.split_once('/') {
+                Some((d, _)) => v.args.contains(&format!("ws/{d}")),
+                None => v.args.iter().any(|a| a == "ws"),
+            }
+    })
 }
 
 pub fn shrink(t: &WorldTrace) -> Vec<WorldTrace> {
@@ -1217,9 +1276,28 @@ pub fn shrink(t: &WorldTrace) -> Vec<WorldTrace> {
             let gone = format!("ws/{}", last.name);
             n.variants[vi].args.retain(|a| *a != gone);
             if n.variants[vi].args.is_empty() {
-                n.variants[vi].args.push("ws".into());
+                n.variants[vi].args = n.variants[vi].files.iter().map(|f| format!("ws/{}", f.name)).collect();
             }
             out.push(n);
+        }
+        if v.files.iter().any(|f| f.name.contains('/')) {
+            // towards one flat directory (only if the base names stay distinct)
+            let mut n = t.clone();
+            let mut names: Vec<String> = vec![];
+            let mut ok = true;
+            for f in n.variants[vi].files.iter_mut() {
+                let base = f.name.rsplit('/').next().unwrap_or(&f.name).to_string();
+                if names.contains(&base) {
+                    ok = false;
+                    break;
+                }
+                names.push(base.clone());
+                f.name = base;
+            }
+            if ok {
+                n.variants[vi].args = n.variants[vi].files.iter().map(|f| format!("ws/{}", f.name)).collect();
+                out.push(n);
+            }
         }
         if v.entry == Entry::ApiText {
             let mut n = t.clone();
